@@ -347,3 +347,76 @@ def shrink(case, still_fails):
                 return c
             try_lists(get, put)
     return nonlocal_case[0]
+
+
+# ---------------------------------------------------------------------------------------------------------------------
+# "keeps every element of A unchanged", on documents whose elements refer to each other at every reference site of the
+# grammar (the abstract pairs above carry an id as content and cannot see a reference inside A being rewritten)
+KEEP_GAIN = {b'Group', b'Function'}          # may gain members
+
+
+def a_kept(sites, dump_before, dump_after):
+    """None, or what happened to a named element of A"""
+    from checks import reflib as R, loadlib
+    before = R.definitions_in_dump(dump_before, sites, with_nodes=True).get(0, {})
+    after = R.definitions_in_dump(dump_after, sites, with_nodes=True).get(0, {})
+    for ns in sorted(before):
+        for name, (tname, node) in sorted(before[ns].items()):
+            hit = after.get(ns, {}).get(name)
+            if hit is None:
+                return '%s %s of A is gone after the merge' % (tname, name)
+            if hit[0] != tname:
+                return '%s %s of A is a %s after the merge' % (tname, name, hit[0])
+            if node[0] in KEEP_GAIN:
+                continue
+            d = loadlib.veq(node, hit[1])
+            if d:
+                return '%s %s of A is changed by the merge: %s' % (tname, name, d)
+    return None
+
+
+def extra_stage(v, tier, rng, impl):
+    from checks import reflib as R
+    sites = R.load_sites()
+    n = 60 if tier == 'quick' else 3000
+    pairs = []
+    for j in range(n):
+        ov = R.OVERLAPS[j % len(R.OVERLAPS)]
+        ta, tb, info = R.gen_merge_pair(rng, sites, ov, size=rng.choice(['small', 'small', 'medium']), p_conflict=rng.choice([0.3, 0.5, 0.9]))
+        pairs.append((ov, ta, tb))
+    loads = R.run_cases('LOAD', [R.load_case(ta) for ov, ta, tb in pairs], binary=impl)
+    merges = R.run_cases('MERGE', [R.merge_case(ta, tb) for ov, ta, tb in pairs], binary=impl)
+    found, n_ok, n_defs = [], 0, 0
+    for (ov, ta, tb), la, m in zip(pairs, loads, merges):
+        if not la or la[0] != b'OK' or not m:
+            continue
+        why = None
+        if m[0] != b'OK':
+            why = 'merge_modules: %s' % sx.pretty(m[:2])
+        else:
+            why = a_kept(sites, la[1], m[1])
+            n_defs += sum(len(x) for x in R.definitions_in_dump(la[1], sites).get(0, {}).values())
+        if why is None:
+            n_ok += 1
+        elif len(found) < 3:
+            found.append({'payload': {'kind': 'MERGEKEEP', 'textA': ta, 'textB': tb, 'overlap': ov, 'why': why,
+                                      'stage': 'W (every element of A unchanged, documents with references)'}})
+    v.coverage['keep_pairs'] = len(pairs)
+    v.coverage['keep_pairs_ok'] = n_ok
+    v.coverage['keep_elements_of_A_compared'] = n_defs
+    return found
+
+
+def replay(r):
+    if r.get('kind') == 'MERGEKEEP':
+        from checks import reflib as R
+        impl = fw.build_harness()
+        sites = R.load_sites()
+        la = R.run_cases('LOAD', [R.load_case(r['textA'])], binary=impl)[0]
+        m = R.run_cases('MERGE', [R.merge_case(r['textA'], r['textB'])], binary=impl)[0]
+        print('A:\n' + r['textA'][:3000])
+        print('B:\n' + r['textB'][:3000])
+        why = 'merge failed' if not m or m[0] != b'OK' or not la or la[0] != b'OK' else a_kept(sites, la[1], m[1])
+        print('oracle:', why or 'every element of A is unchanged')
+        return 1 if why else 0
+    return None          # every other kind: the generic replay of vcheck
